@@ -7,15 +7,17 @@ class _NoContracts(object):
 
 
 def main(tier):
-    from contracts import c04
+    from contracts import c04, c18
     # shared leaves only: the forward block functions rectgeo inverts (C04 contracts)
     progs = [('p_block_functions', (i, 2)) for i in (1, 2, 3)] + [('p_column_volume', None)]
-    return generic.run('C18', 'other', tier, c04, progs, ['mulgrids.mulgrid.block_surface', 'mulgrids.mulgrid.block_volume', 'mulgrids.mulgrid.block_centre', 't2grids.t2grid.rectgeo'],
+    return generic.run('C18', 'other', tier, c04, progs, ['mulgrids.mulgrid.block_surface', 'mulgrids.mulgrid.block_volume', 'mulgrids.mulgrid.block_centre'] + c18.FUNCS,
         'c18_rectgeo.py', 'fromgeo_rectgeo_fromgeo',
         'rectangular geometries 1..12 x 1..12 x 2..14 with random positive spacings (at most one horizontal direction single), random origin and rotation, atmosphere types 0/1/2, flat / stepped / sloping / above-top surfaces, '
         '4 naming conventions, with and without inactive boundary blocks; g -> fromgeo -> rectgeo -> (g\', map) -> fromgeo(g\', map) compared for spacings, position, surfaces, atmosphere, names, volumes, connections; '
         'repeated after extra-precision and standard data-file round trips',
-        trust=('the forward contracts of C04 (block top / volume / centre) that rectgeo inverts',),
-        assume=('rectgeo walks the connection graph with numpy nan-reductions, set iteration and trigonometry: outside the executor subset; the property is decided by the bounded round trip',),
-        explanation='bounded-dominant: only the forward leaves shared with C04 are proved (block top, volume, centre, telescoping column volume - the quantities rectgeo inverts). The inversion itself is checked on 400 (quick) / 4000 (thorough) '
+        trust=('the forward contracts of C04 (block top / volume / centre) that rectgeo inverts', 'pyvc heap model of the real geometry and grid; numpy nanargmin / nanargmax: an index of an extremal non-NaN element; sets of objects iterate in creation order', 'z3'),
+        assume=('rectgeo.match_position (asin / degrees / rotate / translate) is replaced by the identity: the obligation quantifies over geometries at the origin, top at elevation 0, not rotated - position and orientation are bounded',
+                'whole-method obligations: 8 shapes (2x1x2 .. 3x2x2, 3 atmosphere types, 4 conventions, 0 or 1 symbolic surface keeping at least two layers) with symbolic spacings between layer_snap = 0.1 and 1e6, atmosphere volume >= 1e25; a one-layer column reproduces a known finding',),
+        extra=[(c18, c18.PROGRAMS)],
+        explanation='clause -> evidence: the real t2grid.rectgeo (spacing walks, origin and top-block search, block map, surface recovery, layer snapping) run by the executor on the grid fromgeo() builds from a real rectangular geometry at the origin returns the same layer thicknesses, the same column rectangles and areas, the same surface elevations, the requested atmosphere arrangement and a block-name map under which fromgeo() of the reconstructed geometry reproduces block names, volumes and connection areas / distances: PROVED for all spacings and surfaces of the 8 shapes under assume (position / orientation assumed, see assume). The forward leaves shared with C04 are proved (block top, volume, centre, telescoping column volume). The inversion with arbitrary origin and rotation, larger grids, boundary blocks and data-file round trips is checked on 400 (quick) / 4000 (thorough) '
                     'generated rectangular geometries per run, in memory and after data-file round trips. 4 known findings (single block in x, one-layer columns, side boundary blocks, top layer not reached).')
